@@ -523,6 +523,13 @@ class Program:
             slot: Dict[str, int] = {}
             computed: Dict[str, Any] = {}
             for st in ast.walk(new.node):
+                if (isinstance(st, ast.Assign) and len(st.targets) == 1 and isinstance(st.targets[0], ast.Tuple) and isinstance(st.value, ast.Tuple)
+                        and len(st.targets[0].elts) == len(st.value.elts)):
+                    # a, b = x, y  sets each attribute from the value at the same position
+                    for t, v in zip(st.targets[0].elts, st.value.elts):
+                        if isinstance(t, ast.Attribute) and isinstance(v, ast.Name) and v.id in params:
+                            slot[t.attr] = params.index(v.id)
+                    continue
                 if isinstance(st, ast.Assign) and all(isinstance(t, ast.Attribute) for t in st.targets):
                     if isinstance(st.value, ast.Name) and st.value.id in params:
                         for t in st.targets:
